@@ -417,7 +417,7 @@ def finalize(m, tier, seed):
         inc = f"only {cov['rule_pairs_fired']} of {cov['rule_pairs_called']} rewrite-rule pairs fired"
     elif cov['slow_suspect_unresolved'] > 3 + 0.003 * cov['evaluations']:
         inc = f"{cov['slow_suspect_unresolved']} cases exceeded the line budget without cycle evidence (unresolved suspects)"
-    elif cov['inconclusive_wall'] > 3:
+    elif cov['inconclusive_wall'] > 3 + 0.0002 * cov['evaluations']:
         inc = 'wall watchdog fired before the logical budget on several cases'
     elif cov['shadow_or_translation_suspect'] > 0.002 * cov['evaluations'] + 3:
         inc = 'un-simplified evaluation disagrees with the shadow on too many cases (shadow suspect)'
